@@ -110,10 +110,11 @@ func (m *Manager) wipeoutKey(ctx context.Context, keyName string) error {
 				&kmspb.DestroyCryptoKeyVersionRequest{Name: kver.GetName()})
 			result = multierr.Append(result, err)
 		}
-		if len(resp.GetCryptoKeyVersions()) < keyPageSize {
+		// A page may be short and still be followed by more; only an empty token ends the listing.
+		pageToken = resp.GetNextPageToken()
+		if pageToken == "" {
 			break
 		}
-		pageToken = resp.GetNextPageToken()
 	}
 	return result
 }
@@ -132,10 +133,10 @@ func (m *Manager) Wipeout(ctx context.Context) error {
 		for _, key := range resp.GetCryptoKeys() {
 			result = multierr.Append(result, m.wipeoutKey(ctx, key.GetName()))
 		}
-		if len(resp.GetCryptoKeys()) < keyPageSize {
+		pageToken = resp.GetNextPageToken()
+		if pageToken == "" {
 			break
 		}
-		pageToken = resp.GetNextPageToken()
 	}
 	return result
 }
